@@ -94,6 +94,218 @@ fn check_tris(acc: &mut Acc, idx: usize, what: &str, p: &Poly, pg: &Polygon<f64>
     }
 }
 
+fn tri_checks(acc: &mut Acc, idx: usize, p: &Poly, touch: &bool, off: f64) {
+    let bx = (p.shell.iter().map(|v| v.0).min().unwrap(), p.shell.iter().map(|v| v.0).max().unwrap());
+    let by = (p.shell.iter().map(|v| v.1).min().unwrap(), p.shell.iter().map(|v| v.1).max().unwrap());
+        let pg0 = poly(p);
+        let pg = pg0.map_coords(|c| Coord { x: c.x + off, y: c.y + off });
+        acc.class(format!("n{} holes{} touch{} off{}", p.shell.len(), p.holes.len(), touch, off));
+        acc.sample(idx, || json!({"polygon": format!("{:?}", pg)}));
+        if !touch {
+            check_tris(acc, idx, "earcut_triangles", p, &pg, guard(|| pg.earcut_triangles()), false, off);
+        }
+        check_tris(
+            acc,
+            idx,
+            "constrained_triangulation",
+            p,
+            &pg,
+            guard(|| TriangulateDelaunay::constrained_triangulation(&pg, DelaunayTriangulationConfig::default())).and_then(|r| r.map_err(|e| format!("{:?}", e))),
+            false,
+            off,
+        );
+        check_tris(
+            acc,
+            idx,
+            "unconstrained_triangulation",
+            p,
+            &pg,
+            guard(|| TriangulateDelaunay::unconstrained_triangulation(&pg)).and_then(|r| r.map_err(|e| format!("{:?}", e))),
+            true,
+            off,
+        );
+        // constrained_outer_triangulation keeps the polygon's edges as constraints and tiles the convex hull
+        check_tris(
+            acc,
+            idx,
+            "constrained_outer_triangulation",
+            p,
+            &pg,
+            guard(|| TriangulateDelaunay::constrained_outer_triangulation(&pg, DelaunayTriangulationConfig::default())).and_then(|r| r.map_err(|e| format!("{:?}", e))),
+            true,
+            off,
+        );
+        // the deprecated TriangulateSpade trait is a second copy of the same three entry points
+        #[allow(deprecated)]
+        if idx % 4 < 2 {
+            use geo::algorithm::triangulate_spade::SpadeTriangulationConfig;
+            use geo::TriangulateSpade;
+            check_tris(acc, idx, "TriangulateSpade::constrained_triangulation", p, &pg, guard(|| TriangulateSpade::constrained_triangulation(&pg, SpadeTriangulationConfig::default())).and_then(|r| r.map_err(|e| format!("{:?}", e))), false, off);
+            check_tris(acc, idx, "TriangulateSpade::constrained_outer_triangulation", p, &pg, guard(|| TriangulateSpade::constrained_outer_triangulation(&pg, SpadeTriangulationConfig::default())).and_then(|r| r.map_err(|e| format!("{:?}", e))), true, off);
+            check_tris(acc, idx, "TriangulateSpade::unconstrained_triangulation", p, &pg, guard(|| TriangulateSpade::unconstrained_triangulation(&pg)).and_then(|r| r.map_err(|e| format!("{:?}", e))), true, off);
+        }
+        // stitch(constrained Delaunay) has the same area and the same exterior on the half-step lattice (touching rings included)
+        {
+            acc.evals += 1;
+            let r = guard(|| TriangulateDelaunay::constrained_triangulation(&pg, DelaunayTriangulationConfig::default()).map(|t| t.stitch_triangulation()));
+            match r {
+                Ok(Ok(Ok(mp))) => {
+                    let a = mp.unsigned_area();
+                    let want = poly_area(p).f();
+                    let mut bad = (a - want).abs() > 1e-6;
+                    if !bad && off == 0.0 {
+                        use geo::CoordinatePosition;
+                        for kx in (2 * bx.0 - 3)..=(2 * bx.1 + 3) {
+                            for ky in (2 * by.0 - 3)..=(2 * by.1 + 3) {
+                                let q = HP::new(kx as i128, ky as i128, 2);
+                                let c = Coord { x: kx as f64 / 2.0, y: ky as f64 / 2.0 };
+                                let want = locate(&AG::Polys(vec![p.clone()]), &q);
+                                let got_out = mp.coordinate_position(&c) == geo::coordinate_position::CoordPos::Outside;
+                                if (want == E) != got_out {
+                                    bad = true;
+                                }
+                            }
+                        }
+                    }
+                    if bad {
+                        acc.viol(format!("stitch_triangulation(constrained Delaunay) differs from the polygon (area or exterior), holes={} touching={}", p.holes.len(), touch), idx, || json!({"polygon": format!("{:?}", pg), "stitched": format!("{:?}", mp), "area": a, "expected_area": want}));
+                    }
+                }
+                other => acc.viol(format!("stitch_triangulation(constrained Delaunay) failed/panicked, holes={} touching={}", p.holes.len(), touch), idx, || json!({"polygon": format!("{:?}", pg), "result": format!("{:?}", other).chars().take(300).collect::<String>()})),
+            }
+        }
+        // stitch(earcut) has the same area and the same location on the half-step lattice
+        if !touch {
+            acc.evals += 1;
+            // is the ear-cut triangulation conforming (no triangle edge passes through another triangle's vertex)? stitching works on identical edges only
+            let ear = guard(|| pg.earcut_triangles()).unwrap_or_default();
+            let its: Vec<[IP; 3]> = ear.iter().filter_map(|t| tri_ip(t, off)).collect();
+            let conforming = !its.iter().any(|t| (0..3).any(|i| its.iter().any(|u| u.iter().any(|&v| v != t[i] && v != t[(i + 1) % 3] && on_seg_i(t[i], t[(i + 1) % 3], v)))));
+            acc.count(if conforming { "ear-cut triangulations that are conforming" } else { "ear-cut triangulations with a T-junction (non-conforming)" }, 1);
+            match guard(|| ear.stitch_triangulation()) {
+                Ok(Ok(mp)) => {
+                    let a = mp.unsigned_area();
+                    let want = poly_area(p).f();
+                    let mut bad = (a - want).abs() > 1e-6;
+                    if !bad && off == 0.0 {
+                        use geo::CoordinatePosition;
+                        for kx in (2 * bx.0 - 3)..=(2 * bx.1 + 3) {
+                            for ky in (2 * by.0 - 3)..=(2 * by.1 + 3) {
+                                let q = HP::new(kx as i128, ky as i128, 2);
+                                let c = Coord { x: kx as f64 / 2.0, y: ky as f64 / 2.0 };
+                                let want = locate(&AG::Polys(vec![p.clone()]), &q);
+                                let got = match mp.coordinate_position(&c) {
+                                    geo::coordinate_position::CoordPos::Inside => I,
+                                    geo::coordinate_position::CoordPos::OnBoundary => B,
+                                    _ => E,
+                                };
+                                // the property asks for the same area; ear-cut may leave a T-junction (a triangle edge through a hole
+                                // vertex), which stitches into a self-touching exterior, so only exterior-vs-not is compared
+                                if (want == E) != (got == E) {
+                                    bad = true;
+                                }
+                            }
+                        }
+                    }
+                    if bad {
+                        let kind = if conforming { "conforming ear-cut triangulation" } else { "ear-cut triangulation with a T-junction: a triangle edge passes through another triangle's vertex" };
+                        acc.viol(format!("stitch_triangulation(earcut) differs from the polygon (area or exterior) [{}]", kind), idx, || json!({"polygon": format!("{:?}", pg), "stitched": format!("{:?}", mp), "stitched_area": a, "polygon_area": want}));
+                    }
+                }
+                other => acc.viol("stitch_triangulation failed/panicked".into(), idx, || json!({"polygon": format!("{:?}", pg), "result": format!("{:?}", other)})),
+            }
+        }
+}
+
+fn mono_checks(acc: &mut Acc, idx: usize, p: &Poly, touch: &bool) {
+    let bx = (p.shell.iter().map(|v| v.0).min().unwrap(), p.shell.iter().map(|v| v.0).max().unwrap());
+    let by = (p.shell.iter().map(|v| v.1).min().unwrap(), p.shell.iter().map(|v| v.1).max().unwrap());
+        let pg = poly(p);
+        acc.evals += 1;
+        acc.class(format!("monotone n{} holes{} touch{}", p.shell.len(), p.holes.len(), touch));
+        let pieces = match guard(|| monotone_subdivision([pg.clone()])) {
+            Ok(x) => x,
+            Err(e) => {
+                // how do the rings touch: at a common vertex, or with a vertex of one ring in the interior of an edge of the other (T-junction)
+                let tj = p.holes.iter().any(|h| {
+                    let on_edge_interior = |v: IP, r: &Vec<IP>| !r.contains(&v) && (0..r.len()).any(|i| on_seg_i(r[i], r[(i + 1) % r.len()], v));
+                    h.iter().any(|&v| on_edge_interior(v, &p.shell)) || p.shell.iter().any(|&v| on_edge_interior(v, h))
+                });
+                let kind = if !*touch { "rings disjoint" } else if tj { "ring vertex in the interior of another ring's edge" } else { "rings share a vertex" };
+                acc.viol(format!("monotone_subdivision panic ({})", kind), idx, || json!({"polygon": format!("{:?}", pg), "panic": e}));
+                return;
+            }
+        };
+        let w = |msg: &str| json!({"polygon": format!("{:?}", pg), "pieces": format!("{:?}", pieces), "detail": msg});
+        acc.sample(idx, || json!({"polygon": format!("{:?}", pg), "pieces": pieces.len()}));
+        // areas sum; each piece x-monotone (chains lexicographically increasing)
+        let mut total = 0.0;
+        let mut tiles: Vec<Vec<IP>> = vec![];
+        let mut lattice = true;
+        for mpoly in &pieces {
+            for chain in [mpoly.top(), mpoly.bot()] {
+                if !chain.0.windows(2).all(|w| (w[0].x, w[0].y) < (w[1].x, w[1].y)) {
+                    acc.viol("monotone piece chain is not lexicographically increasing".into(), idx, || w(""));
+                    return;
+                }
+            }
+            let pp = mpoly.clone().into_polygon();
+            total += pp.unsigned_area();
+            let ring: Option<Vec<IP>> = pp.exterior().0[..pp.exterior().0.len() - 1].iter().map(|c| if c.x.fract() == 0.0 && c.y.fract() == 0.0 { Some((c.x as i64, c.y as i64)) } else { None }).collect();
+            match ring {
+                Some(r) => tiles.push(r),
+                None => lattice = false,
+            }
+        }
+        if (total - poly_area(p).f()).abs() > 1e-9 {
+            acc.viol("monotone pieces' areas do not sum to the polygon's area".into(), idx, || w(&format!("sum {} want {}", total, poly_area(p).f())));
+            return;
+        }
+        // exact tiling by the pieces
+        if lattice {
+            let ag = AG::Polys(vec![p.clone()]);
+            let mut segs = ag.segs();
+            for t in &tiles {
+                for i in 0..t.len() {
+                    let e = (t[i], t[(i + 1) % t.len()]);
+                    if e.0 != e.1 && !segs.contains(&e) && !segs.contains(&(e.1, e.0)) {
+                        segs.push(e);
+                    }
+                }
+            }
+            let arr = arrangement(&segs, &[]);
+            for q in &arr.faces {
+                let cnt = tiles.iter().filter(|t| ring_pos(t, q) == 2).count();
+                let want = if locate(&ag, q) == I { 1 } else { 0 };
+                if cnt != want {
+                    acc.viol("monotone pieces do not tile the polygon (overlap / outside / gap)".into(), idx, || w(&format!("witness {} {} covered {} times, expected {}", q.fx(), q.fy(), cnt, want)));
+                    return;
+                }
+            }
+        } else {
+            acc.count("monotone pieces with non-lattice vertices (tiling checked by area only)", 1);
+        }
+        // point location on the half-step lattice, one step outside the box
+        let mono = MonotonicPolygons::from(pg.clone());
+        let ag = AG::Polys(vec![p.clone()]);
+        for kx in (2 * bx.0 - 4)..=(2 * bx.1 + 4) {
+            for ky in (2 * by.0 - 4)..=(2 * by.1 + 4) {
+                let q = HP::new(kx as i128, ky as i128, 2);
+                let c = Coord { x: kx as f64 / 2.0, y: ky as f64 / 2.0 };
+                let want = locate(&ag, &q) != E;
+                acc.evals += 1;
+                let got = mono.intersects(&c);
+                if got != want {
+                    let vertical_above = p.shell.iter().chain(p.holes.iter().flatten()).any(|v| 2 * v.0 == kx);
+                    acc.viol(format!("MonotonicPolygons::intersects expected {} got {} (query x {} a vertex x)", want, got, if vertical_above { "equals" } else { "differs from" }), idx, || {
+                        w(&format!("query {:?} exact location {}", c, ["interior", "boundary", "exterior"][locate(&ag, &q)]))
+                    });
+                    return;
+                }
+            }
+        }
+}
+
 pub fn polys(quick: bool) -> Vec<(Poly, bool)> {
     // (polygon, rings touch each other)
     let mut v: Vec<(Poly, bool)> = vec![];
@@ -182,213 +394,26 @@ pub fn run(mut run: Run) -> i32 {
     run.stage("triangulations", n * 2, |idx, acc| {
         let (p, touch) = &ps[idx / 2];
         let off = if idx % 2 == 0 { 0.0 } else { 1e6 };
-        let pg0 = poly(p);
-        let pg = pg0.map_coords(|c| Coord { x: c.x + off, y: c.y + off });
-        acc.class(format!("n{} holes{} touch{} off{}", p.shell.len(), p.holes.len(), touch, off));
-        acc.sample(idx, || json!({"polygon": format!("{:?}", pg)}));
-        if !touch {
-            check_tris(acc, idx, "earcut_triangles", p, &pg, guard(|| pg.earcut_triangles()), false, off);
-        }
-        check_tris(
-            acc,
-            idx,
-            "constrained_triangulation",
-            p,
-            &pg,
-            guard(|| TriangulateDelaunay::constrained_triangulation(&pg, DelaunayTriangulationConfig::default())).and_then(|r| r.map_err(|e| format!("{:?}", e))),
-            false,
-            off,
-        );
-        check_tris(
-            acc,
-            idx,
-            "unconstrained_triangulation",
-            p,
-            &pg,
-            guard(|| TriangulateDelaunay::unconstrained_triangulation(&pg)).and_then(|r| r.map_err(|e| format!("{:?}", e))),
-            true,
-            off,
-        );
-        // constrained_outer_triangulation keeps the polygon's edges as constraints and tiles the convex hull
-        check_tris(
-            acc,
-            idx,
-            "constrained_outer_triangulation",
-            p,
-            &pg,
-            guard(|| TriangulateDelaunay::constrained_outer_triangulation(&pg, DelaunayTriangulationConfig::default())).and_then(|r| r.map_err(|e| format!("{:?}", e))),
-            true,
-            off,
-        );
-        // the deprecated TriangulateSpade trait is a second copy of the same three entry points
-        #[allow(deprecated)]
-        if idx % 4 < 2 {
-            use geo::algorithm::triangulate_spade::SpadeTriangulationConfig;
-            use geo::TriangulateSpade;
-            check_tris(acc, idx, "TriangulateSpade::constrained_triangulation", p, &pg, guard(|| TriangulateSpade::constrained_triangulation(&pg, SpadeTriangulationConfig::default())).and_then(|r| r.map_err(|e| format!("{:?}", e))), false, off);
-            check_tris(acc, idx, "TriangulateSpade::constrained_outer_triangulation", p, &pg, guard(|| TriangulateSpade::constrained_outer_triangulation(&pg, SpadeTriangulationConfig::default())).and_then(|r| r.map_err(|e| format!("{:?}", e))), true, off);
-            check_tris(acc, idx, "TriangulateSpade::unconstrained_triangulation", p, &pg, guard(|| TriangulateSpade::unconstrained_triangulation(&pg)).and_then(|r| r.map_err(|e| format!("{:?}", e))), true, off);
-        }
-        // stitch(constrained Delaunay) has the same area and the same exterior on the half-step lattice (touching rings included)
-        {
-            acc.evals += 1;
-            let r = guard(|| TriangulateDelaunay::constrained_triangulation(&pg, DelaunayTriangulationConfig::default()).map(|t| t.stitch_triangulation()));
-            match r {
-                Ok(Ok(Ok(mp))) => {
-                    let a = mp.unsigned_area();
-                    let want = poly_area(p).f();
-                    let mut bad = (a - want).abs() > 1e-6;
-                    if !bad && off == 0.0 {
-                        use geo::CoordinatePosition;
-                        for kx in -3..=23i64 {
-                            for ky in -1..=9i64 {
-                                let q = HP::new(kx as i128, ky as i128, 2);
-                                let c = Coord { x: kx as f64 / 2.0, y: ky as f64 / 2.0 };
-                                let want = locate(&AG::Polys(vec![p.clone()]), &q);
-                                let got_out = mp.coordinate_position(&c) == geo::coordinate_position::CoordPos::Outside;
-                                if (want == E) != got_out {
-                                    bad = true;
-                                }
-                            }
-                        }
-                    }
-                    if bad {
-                        acc.viol(format!("stitch_triangulation(constrained Delaunay) differs from the polygon (area or exterior), holes={} touching={}", p.holes.len(), touch), idx, || json!({"polygon": format!("{:?}", pg), "stitched": format!("{:?}", mp), "area": a, "expected_area": want}));
-                    }
-                }
-                other => acc.viol(format!("stitch_triangulation(constrained Delaunay) failed/panicked, holes={} touching={}", p.holes.len(), touch), idx, || json!({"polygon": format!("{:?}", pg), "result": format!("{:?}", other).chars().take(300).collect::<String>()})),
-            }
-        }
-        // stitch(earcut) has the same area and the same location on the half-step lattice
-        if !touch {
-            acc.evals += 1;
-            // is the ear-cut triangulation conforming (no triangle edge passes through another triangle's vertex)? stitching works on identical edges only
-            let ear = guard(|| pg.earcut_triangles()).unwrap_or_default();
-            let its: Vec<[IP; 3]> = ear.iter().filter_map(|t| tri_ip(t, off)).collect();
-            let conforming = !its.iter().any(|t| (0..3).any(|i| its.iter().any(|u| u.iter().any(|&v| v != t[i] && v != t[(i + 1) % 3] && on_seg_i(t[i], t[(i + 1) % 3], v)))));
-            acc.count(if conforming { "ear-cut triangulations that are conforming" } else { "ear-cut triangulations with a T-junction (non-conforming)" }, 1);
-            match guard(|| ear.stitch_triangulation()) {
-                Ok(Ok(mp)) => {
-                    let a = mp.unsigned_area();
-                    let want = poly_area(p).f();
-                    let mut bad = (a - want).abs() > 1e-6;
-                    if !bad && off == 0.0 {
-                        use geo::CoordinatePosition;
-                        for kx in -3..=23i64 {
-                            for ky in -1..=9i64 {
-                                let q = HP::new(kx as i128, ky as i128, 2);
-                                let c = Coord { x: kx as f64 / 2.0, y: ky as f64 / 2.0 };
-                                let want = locate(&AG::Polys(vec![p.clone()]), &q);
-                                let got = match mp.coordinate_position(&c) {
-                                    geo::coordinate_position::CoordPos::Inside => I,
-                                    geo::coordinate_position::CoordPos::OnBoundary => B,
-                                    _ => E,
-                                };
-                                // the property asks for the same area; ear-cut may leave a T-junction (a triangle edge through a hole
-                                // vertex), which stitches into a self-touching exterior, so only exterior-vs-not is compared
-                                if (want == E) != (got == E) {
-                                    bad = true;
-                                }
-                            }
-                        }
-                    }
-                    if bad {
-                        let kind = if conforming { "conforming ear-cut triangulation" } else { "ear-cut triangulation with a T-junction: a triangle edge passes through another triangle's vertex" };
-                        acc.viol(format!("stitch_triangulation(earcut) differs from the polygon (area or exterior) [{}]", kind), idx, || json!({"polygon": format!("{:?}", pg), "stitched": format!("{:?}", mp), "stitched_area": a, "polygon_area": want}));
-                    }
-                }
-                other => acc.viol("stitch_triangulation failed/panicked".into(), idx, || json!({"polygon": format!("{:?}", pg), "result": format!("{:?}", other)})),
-            }
-        }
+        tri_checks(acc, idx, p, touch, off);
     });
     // monotone subdivision
     run.stage("monotone", n, |idx, acc| {
         let (p, touch) = &ps[idx];
-        let pg = poly(p);
-        acc.evals += 1;
-        acc.class(format!("monotone n{} holes{} touch{}", p.shell.len(), p.holes.len(), touch));
-        let pieces = match guard(|| monotone_subdivision([pg.clone()])) {
-            Ok(x) => x,
-            Err(e) => {
-                // how do the rings touch: at a common vertex, or with a vertex of one ring in the interior of an edge of the other (T-junction)
-                let tj = p.holes.iter().any(|h| {
-                    let on_edge_interior = |v: IP, r: &Vec<IP>| !r.contains(&v) && (0..r.len()).any(|i| on_seg_i(r[i], r[(i + 1) % r.len()], v));
-                    h.iter().any(|&v| on_edge_interior(v, &p.shell)) || p.shell.iter().any(|&v| on_edge_interior(v, h))
-                });
-                let kind = if !*touch { "rings disjoint" } else if tj { "ring vertex in the interior of another ring's edge" } else { "rings share a vertex" };
-                acc.viol(format!("monotone_subdivision panic ({})", kind), idx, || json!({"polygon": format!("{:?}", pg), "panic": e}));
-                return;
-            }
-        };
-        let w = |msg: &str| json!({"polygon": format!("{:?}", pg), "pieces": format!("{:?}", pieces), "detail": msg});
-        acc.sample(idx, || json!({"polygon": format!("{:?}", pg), "pieces": pieces.len()}));
-        // areas sum; each piece x-monotone (chains lexicographically increasing)
-        let mut total = 0.0;
-        let mut tiles: Vec<Vec<IP>> = vec![];
-        let mut lattice = true;
-        for mpoly in &pieces {
-            for chain in [mpoly.top(), mpoly.bot()] {
-                if !chain.0.windows(2).all(|w| (w[0].x, w[0].y) < (w[1].x, w[1].y)) {
-                    acc.viol("monotone piece chain is not lexicographically increasing".into(), idx, || w(""));
-                    return;
-                }
-            }
-            let pp = mpoly.clone().into_polygon();
-            total += pp.unsigned_area();
-            let ring: Option<Vec<IP>> = pp.exterior().0[..pp.exterior().0.len() - 1].iter().map(|c| if c.x.fract() == 0.0 && c.y.fract() == 0.0 { Some((c.x as i64, c.y as i64)) } else { None }).collect();
-            match ring {
-                Some(r) => tiles.push(r),
-                None => lattice = false,
-            }
-        }
-        if (total - poly_area(p).f()).abs() > 1e-9 {
-            acc.viol("monotone pieces' areas do not sum to the polygon's area".into(), idx, || w(&format!("sum {} want {}", total, poly_area(p).f())));
-            return;
-        }
-        // exact tiling by the pieces
-        if lattice {
-            let ag = AG::Polys(vec![p.clone()]);
-            let mut segs = ag.segs();
-            for t in &tiles {
-                for i in 0..t.len() {
-                    let e = (t[i], t[(i + 1) % t.len()]);
-                    if e.0 != e.1 && !segs.contains(&e) && !segs.contains(&(e.1, e.0)) {
-                        segs.push(e);
-                    }
-                }
-            }
-            let arr = arrangement(&segs, &[]);
-            for q in &arr.faces {
-                let cnt = tiles.iter().filter(|t| ring_pos(t, q) == 2).count();
-                let want = if locate(&ag, q) == I { 1 } else { 0 };
-                if cnt != want {
-                    acc.viol("monotone pieces do not tile the polygon (overlap / outside / gap)".into(), idx, || w(&format!("witness {} {} covered {} times, expected {}", q.fx(), q.fy(), cnt, want)));
-                    return;
-                }
-            }
-        } else {
-            acc.count("monotone pieces with non-lattice vertices (tiling checked by area only)", 1);
-        }
-        // point location on the half-step lattice, one step outside the box
-        let mono = MonotonicPolygons::from(pg.clone());
-        let ag = AG::Polys(vec![p.clone()]);
-        for kx in -3..=23i64 {
-            for ky in -2..=9i64 {
-                let q = HP::new(kx as i128, ky as i128, 2);
-                let c = Coord { x: kx as f64 / 2.0, y: ky as f64 / 2.0 };
-                let want = locate(&ag, &q) != E;
-                acc.evals += 1;
-                let got = mono.intersects(&c);
-                if got != want {
-                    let vertical_above = p.shell.iter().chain(p.holes.iter().flatten()).any(|v| 2 * v.0 == kx);
-                    acc.viol(format!("MonotonicPolygons::intersects expected {} got {} (query x {} a vertex x)", want, got, if vertical_above { "equals" } else { "differs from" }), idx, || {
-                        w(&format!("query {:?} exact location {}", c, ["interior", "boundary", "exterior"][locate(&ag, &q)]))
-                    });
-                    return;
-                }
-            }
-        }
+        mono_checks(acc, idx, p, touch);
     });
+    // images under (moderate) integer affine maps: oblique edges, no vertical edges left or new ones created, larger coordinates
+    {
+        let istep = if quick { 5 } else { 1 };
+        for f in imaps().into_iter().take(3) {
+            let img: Vec<(Poly, bool)> = ps.iter().step_by(istep).map(|(p, t)| (Poly { shell: p.shell.iter().map(|&v| f.ap(v)).collect(), holes: p.holes.iter().map(|h| h.iter().map(|&v| f.ap(v)).collect()).collect() }, *t)).collect();
+            let ni = img.len();
+            run.stage(&format!("triangulations+monotone affine-image {}", f.name), ni, |idx, acc| {
+                let (p, touch) = &img[idx];
+                tri_checks(acc, idx, p, touch, 0.0);
+                mono_checks(acc, idx, p, touch);
+            });
+        }
+    }
     // multipolygon monotone subdivision: pairs of compatible polygons
     let small: Vec<Vec<IP>> = rings(3, 4);
     let mut pairs: Vec<(Poly, Poly)> = vec![];
